@@ -20,8 +20,11 @@ import (
 )
 
 type verifEntry struct {
-	val  []byte
-	live bool
+	val   []byte
+	live  bool
+	short bool // stored with the 10 s time-to-live: gone from the backend after the next clock advance
+	soft  bool // expired in the backend (virtual clock) but possibly still held by an in-memory layer (wall clock, and
+	// "the later of its time-to-live and the in-memory layer's default retention"): a read may return it or not
 }
 
 func TestVerifBounded_C19_Stacks(t *testing.T) {
@@ -100,22 +103,25 @@ func TestVerifBounded_C19_Stacks(t *testing.T) {
 				v := rnd.Intn(2)
 				k := keys[rnd.Intn(len(keys))]
 				ttl := time.Hour
-				if rnd.Intn(4) == 0 {
+				switch rnd.Intn(8) {
+				case 0, 1:
 					ttl = -time.Hour
+				case 2, 3:
+					ttl = 10 * time.Second
 				}
 				val := []byte(fmt.Sprintf("v%d-%d-%d\x00\xff", run, step, rnd.Intn(1000)))
 				if rnd.Intn(8) == 0 {
 					val = []byte{}
 				}
-				switch op := rnd.Intn(6); op {
+				switch op := rnd.Intn(7); op {
 				case 0:
 					trace = append(trace, fmt.Sprintf("v%d.Set(%q,ttl=%v)", v, k, ttl))
 					_ = caches[v].Set(ctx, k, val, ttl)
-					model[v][k] = verifEntry{val, ttl > 0}
+					model[v][k] = verifEntry{val: val, live: ttl > 0, short: ttl == 10*time.Second}
 				case 1:
 					trace = append(trace, fmt.Sprintf("v%d.SetAsync(%q,ttl=%v)", v, k, ttl))
 					caches[v].SetAsync(k, val, ttl)
-					model[v][k] = verifEntry{val, ttl > 0}
+					model[v][k] = verifEntry{val: val, live: ttl > 0, short: ttl == 10*time.Second}
 				case 2:
 					trace = append(trace, fmt.Sprintf("v%d.Add(%q,ttl=%v)", v, k, ttl))
 					err := caches[v].Add(ctx, k, val, ttl)
@@ -124,7 +130,19 @@ func TestVerifBounded_C19_Stacks(t *testing.T) {
 						report(fmt.Sprintf("c19-add:%s", stk.name), fmt.Sprintf("Add err=%v but a live entry existed=%v; trace %v", err, wasLive, trace))
 					}
 					if !wasLive && err == nil {
-						model[v][k] = verifEntry{val, ttl > 0}
+						model[v][k] = verifEntry{val: val, live: ttl > 0, short: ttl == 10*time.Second}
+					}
+				case 6:
+					// the backend's clock moves beyond the short time-to-live: short-lived entries are gone from the backend
+					trace = append(trace, "clock+1m")
+					back.Advance(time.Minute)
+					for _, mv := range model {
+						for kk, e := range mv {
+							if e.live && e.short {
+								e.live, e.soft = false, true
+								mv[kk] = e
+							}
+						}
 					}
 				case 3:
 					trace = append(trace, fmt.Sprintf("v%d.Delete(%q)", v, k))
@@ -133,8 +151,8 @@ func TestVerifBounded_C19_Stacks(t *testing.T) {
 				case 4:
 					trace = append(trace, fmt.Sprintf("v%d.SetMultiAsync(%q,%q)", v, k, "k"))
 					caches[v].SetMultiAsync(map[string][]byte{k: val, "k": val}, ttl)
-					model[v][k] = verifEntry{val, ttl > 0}
-					model[v]["k"] = verifEntry{val, ttl > 0}
+					model[v][k] = verifEntry{val: val, live: ttl > 0, short: ttl == 10*time.Second}
+					model[v]["k"] = verifEntry{val: val, live: ttl > 0, short: ttl == 10*time.Second}
 				default:
 					got := caches[v].GetMulti(ctx, keys)
 					trace = append(trace, fmt.Sprintf("v%d.GetMulti", v))
@@ -142,7 +160,7 @@ func TestVerifBounded_C19_Stacks(t *testing.T) {
 						m, has := model[v][kk]
 						g, ok := got[kk]
 						switch {
-						case ok && !(has && m.live):
+						case ok && !(has && (m.live || m.soft)):
 							report(fmt.Sprintf("c19-stale:%s", stk.name), fmt.Sprintf("key %q returned %q although deleted/expired/never stored under this version; trace %v", kk, g, trace))
 						case ok && !bytes.Equal(g, m.val):
 							report(fmt.Sprintf("c19-wrong:%s", stk.name), fmt.Sprintf("key %q returned %q, most recently stored %q; trace %v", kk, g, m.val, trace))
@@ -165,7 +183,7 @@ func TestVerifBounded_C19_Stacks(t *testing.T) {
 			}
 		}
 	}
-	fmt.Printf("BOUNDED-CASES name=C19_Stacks n=%d distinct=%d bound=%d wrapper stacks x %d random sequences of 25 operations (set/setasync/add/delete/setmulti/getmulti, ttl in {+1h,-1h}, 7 keys incl. version-like keys, two versions 1 and 12 sharing the lower layers), seed %d; reference model: last stored live value per (version,key)\n", cases, cases, len(stacks), runs, seed)
+	fmt.Printf("BOUNDED-CASES name=C19_Stacks n=%d distinct=%d bound=%d wrapper stacks x %d random sequences of 25 operations (set/setasync/add/delete/setmulti/getmulti/clock advance, ttl in {+1h,10s,-1h}, backend clock advances of 1 min, 7 keys incl. version-like keys, two versions 1 and 12 sharing the lower layers), seed %d; reference model: last stored live value per (version,key)\n", cases, cases, len(stacks), runs, seed)
 	if fails > 0 {
 		t.Fatalf("%d mismatches", fails)
 	}
